@@ -1011,8 +1011,29 @@ class LuaASTEchoWriter(BaseLuaWriter):
     def _walk_VarName(self, node):
         yield self._get_name(node, node.name)
 
+    def _walk_exp_prefix(self, node):
+        """Walks the prefix expression of an index, attribute or call node.
+
+        If the prefix is a parenthesized expression, as in (a or b).x, the
+        parser stores the inner expression without a node for the
+        parentheses, so they are written here.
+        """
+        prefix = node.exp_prefix
+        in_parens = isinstance(prefix, (parser.ExpBinOp, parser.ExpUnOp,
+                                        parser.VarargDots))
+        if not self._args.get('ignore_tokens'):
+            in_parens = in_parens or isinstance(prefix, parser.ExpValue)
+        if in_parens:
+            yield self._get_text(node, b'(')
+            self._indent += 1
+        for t in self._walk(prefix):
+            yield t
+        if in_parens:
+            self._indent -= 1
+            yield self._get_text(node, b')')
+
     def _walk_VarIndex(self, node):
-        for t in self._walk(node.exp_prefix):
+        for t in self._walk_exp_prefix(node):
             yield t
         yield self._get_text(node, b'[')
         self._indent += 1
@@ -1022,7 +1043,7 @@ class LuaASTEchoWriter(BaseLuaWriter):
         yield self._get_text(node, b']')
 
     def _walk_VarAttribute(self, node):
-        for t in self._walk(node.exp_prefix):
+        for t in self._walk_exp_prefix(node):
             yield t
         yield self._get_text(node, b'.')
         yield self._get_name(node, node.attr_name)
@@ -1056,7 +1077,12 @@ class LuaASTEchoWriter(BaseLuaWriter):
                 in_parens = True
                 self._indent += 1
         else:
-            if self._tokens[self._pos].matches(lexer.TokSymbol(b'(')):
+            # (If the value is an index, attribute or call, a leading paren
+            # belongs to its prefix. See _walk_exp_prefix().)
+            if (self._tokens[self._pos].matches(lexer.TokSymbol(b'(')) and
+                    isinstance(node.value, (parser.ExpValue, parser.ExpBinOp,
+                                            parser.ExpUnOp,
+                                            parser.VarargDots))):
                 yield b'('
                 in_parens = True
                 self._pos += 1
@@ -1100,7 +1126,7 @@ class LuaASTEchoWriter(BaseLuaWriter):
             yield t
 
     def _walk_FunctionCall(self, node):
-        for t in self._walk(node.exp_prefix):
+        for t in self._walk_exp_prefix(node):
             yield t
         if node.args is None:
             yield self._get_text(node, b'(')
@@ -1115,7 +1141,7 @@ class LuaASTEchoWriter(BaseLuaWriter):
                 yield t
 
     def _walk_FunctionCallMethod(self, node):
-        for t in self._walk(node.exp_prefix):
+        for t in self._walk_exp_prefix(node):
             yield t
         yield self._get_text(node, b':')
         yield self._get_name(node, node.methodname)
